@@ -1,0 +1,11 @@
+//go:build verif
+
+package gio
+
+// Machine-checked contracts for /verif (gowp). Comment-only file: it adds no code.
+
+// constructor of a child IO context: assumed (not verified) to return a non-nil context
+//@ func NewChildIOContext [C14]
+//@   trusted
+//@   modifies *
+//@   ensures result != nil
